@@ -39,4 +39,12 @@ def run(tier, seed):
                              'counted_as_proved': False})
         if bad:
             pack.violation(name, {'bounded': True, 'inputs': bad, 'native_cmd': 'contracts/bounded_events.py'})
+    name = 'C06/andes/models/timer.py:AlterModel._alter_field/bounded:coincident-alterations-of-one-field-compose-in-device-order'
+    r = native_guard(pack, name, BE.run_coincident_alter)
+    if r is not None:
+        n, bad = r
+        pack.bounded.append({'function': 'TDS.run with two Alter events on one field (end to end)', 'kind': 'bounded native: kundur_full, %d schedules' % n,
+                             'counted_as_proved': False})
+        if bad:
+            pack.violation(name, {'bounded': True, 'inputs': bad, 'native_cmd': 'contracts/bounded_events.py run_coincident_alter'})
     return pack.finish()
